@@ -2157,3 +2157,619 @@ Proof.
         destruct (send_session h1 sid (SError code)) as [h2 o2]. cbn [fst] in *.
         split; [exact TI2|]. intros Hko. apply (Hreq (h2, o1 ++ o2)). apply (loc_bind b oc h (h1, o1) (h2, o2)); auto.
 Qed.
+
+(* ------------------------------------------------------------------ hello *)
+Definition unattached (h : hub) (c : N) : Prop := forall cn0, aget (h_conns h) c = Some cn0 -> c_sess cn0 = None.
+Definition own_outs (c : N) (outs : list out) : Prop := forall c' m, In (ToConn c' m) outs -> c' = c.
+Lemma own_outs_ok b c h outs : own_outs c outs -> outs_ok b (Some c) h outs.
+Proof. intros H c' m Hin. left. now rewrite (H c' m Hin). Qed.
+
+(* only the op's own connection entry changes, and it is attached to nobody before *)
+Lemma bij_conns_other h h' c : Bij h -> unattached h c -> h_sessions h' = h_sessions h ->
+  (forall c', c' <> c -> aget (h_conns h') c' = aget (h_conns h) c') -> Bij h'.
+Proof.
+  intros B Hu Es Ec tid c' (t & Ht & Hc). rewrite (get_ext h h' tid Es) in Ht.
+  destruct (B tid c' (ex_intro _ t (conj Ht Hc))) as (cn0 & Hcn & Hcs).
+  assert (Hne : c' <> c) by (intros ->; rewrite (Hu cn0 Hcn) in Hcs; discriminate).
+  exists cn0. rewrite (Ec c' Hne). auto.
+Qed.
+Lemma conn_only_spec b c h h' outs : TI h -> unattached h c ->
+  h_sessions h' = h_sessions h -> h_rooms h' = h_rooms h -> h_bus h' = h_bus h ->
+  (forall c', c' <> c -> aget (h_conns h') c' = aget (h_conns h) c') -> own_outs c outs ->
+  TI h' /\ Loc b (Some c) h (h', outs).
+Proof.
+  intros [T B] Hu Es Er Eb Ec Ho. split; [split|split].
+  - now apply (ten_ext h).
+  - now apply (bij_conns_other h h' c).
+  - now apply fr_eq.
+  - now apply own_outs_ok.
+Qed.
+
+Lemma register_proj h c cn b k u :
+  let r := register h c cn b k u in
+  h_rooms (fst r) = h_rooms h /\ h_bus (fst r) = h_bus h /\
+  ((h_sessions (fst r) = h_sessions h /\ h_conns (fst r) = aset (h_conns h) c (mkconn (c_addr cn) None true) /\
+    snd r = [ToConn c (SError E_session_limit)]) \/
+   (h_sessions (fst r) = aset (h_sessions h) (next_id h) (new_session b k u c) /\
+    h_conns (fst r) = aset (h_conns h) c (mkconn (c_addr cn) (Some (next_id h)) false) /\
+    snd r = [ToConn c (SHello (next_id h) u)])).
+Proof.
+  unfold register.
+  match goal with |- context [if ?cnd then (_, [ToConn c (SError E_session_limit)]) else _] => destruct cnd end.
+  - cbn. split; [reflexivity|]. split; [reflexivity|]. left. auto.
+  - destruct (negb (is_internal k) && negb (N.eqb (limit_of h b) 0));
+      destruct (N.eqb u 0 && negb (is_internal k)); destruct k as [|f d|p v]; try destruct d;
+      (split; [reflexivity|]); (split; [reflexivity|]); right; repeat split; reflexivity.
+Qed.
+
+Lemma register_spec b h c cn k u : WF h -> TI h -> is_virtual k = false -> unattached h c ->
+  TI (fst (register h c cn b k u)) /\ Loc b (Some c) h (register h c cn b k u).
+Proof.
+  intros W TIh Hv Hu. destruct (register_proj h c cn b k u) as (Er & Eb & [(Es & Ec & Eo)|(Es & Ec & Eo)]).
+  - rewrite (pair_fst_snd (register h c cn b k u)) at 2. rewrite Eo.
+    apply conn_only_spec; auto.
+    + intros c' Hne. rewrite Ec. now apply aget_aset_other.
+    + intros c' m [E|[]]. now injection E as <- _.
+  - set (sid := next_id h) in *. set (new := new_session b k u c) in *.
+    assert (Hfresh : get_sess h sid = None) by apply next_id_fresh.
+    split; [split|split].
+    + apply (ten_new h _ sid new W (proj1 TIh) Hfresh Es).
+      * intros k0 Hk0. discriminate.
+      * intros p v Hk0. cbn in Hk0. subst k. discriminate.
+      * intros k0 r' m Hr Hm. right. rewrite (room_ext h _ k0 Er) in Hr. eauto.
+    + intros tid c' (t & Ht & Hc). unfold get_sess in Ht. rewrite Es, aget_aset in Ht. unfold attached. rewrite Ec.
+      destruct (N.eqb_spec tid sid) as [->|Hne].
+      * injection Ht as <-. cbn in Hc. injection Hc as <-. rewrite aget_aset_same. eexists. split; reflexivity.
+      * destruct (proj2 TIh tid c' (ex_intro _ t (conj Ht Hc))) as (cn0 & Hcn & Hcs).
+        assert (Hcc : c' <> c) by (intros ->; rewrite (Hu cn0 Hcn) in Hcs; discriminate).
+        exists cn0. rewrite aget_aset_other by exact Hcc. auto.
+    + apply (fr_aset b (Some c) h _ sid new Es Er Eb).
+      * intros t Ht. congruence.
+      * reflexivity.
+      * intros c' Hc'. cbn in Hc'. left. congruence.
+    + rewrite Eo. apply own_outs_ok. intros c' m [E|[]]. now injection E as <- _.
+Qed.
+
+Definition hello_on (b : N) (h : hub) (hl : hello) : Prop :=
+  match hl with
+  | HV1 b' _ _ | HV2 b' _ _ | HInternal b' _ _ _ => b' = b
+  | HResume (IdPriv n) => bsid b h n
+  | HResume _ => True
+  end.
+
+Lemma unattached_ext h h' c : h_conns h' = h_conns h -> unattached h c -> unattached h' c.
+Proof. intros E Hu cn0. rewrite E. apply Hu. Qed.
+
+(* what happens to the connection the resumed session was on *)
+Lemma resume_pre h c n s r : get_sess h n = Some s -> Bij h -> unattached h c ->
+  let P := match s_conn s with
+           | Some c' =>
+               if N.eqb c' c then (h, [])
+               else send_conn (match aget (h_conns h) c' with
+                               | Some cn' => set_conns h (aset (h_conns h) c' (mkconn (c_addr cn') None (c_expect cn')))
+                               | None => h end) c' (SBye r)
+           | None => (h, [])
+           end in
+  h_sessions (fst P) = h_sessions h /\ h_rooms (fst P) = h_rooms h /\ h_bus (fst P) = h_bus h /\
+  h_nextsid (fst P) = h_nextsid h /\
+  (forall c'', s_conn s <> Some c'' -> aget (h_conns (fst P)) c'' = aget (h_conns h) c'') /\
+  (forall c'' m, In (ToConn c'' m) (snd P) -> s_conn s = Some c'').
+Proof.
+  intros Hs B Hu. cbv zeta.
+  destruct (s_conn s) as [c'|] eqn:Hc; [|repeat split; auto; intros c'' m []].
+  destruct (N.eqb_spec c' c) as [->|Hne]; [repeat split; auto; intros c'' m []|].
+  destruct (B n c' (ex_intro _ s (conj Hs Hc))) as (cn' & Hcn & Hcs). rewrite Hcn.
+  unfold send_conn. cbn [h_conns set_conns]. rewrite aget_aset_same. cbn [is_closing].
+  unfold close_conn. cbn [h_conns set_conns]. rewrite aget_aset_same. cbn [c_sess fst snd].
+  repeat split; try reflexivity.
+  - intros c'' Hne''. cbn [h_conns set_conns]. assert (c'' <> c') by congruence.
+    rewrite aget_adel_other by assumption. now rewrite aget_aset_other by assumption.
+  - intros c'' m [E|[E|[]]]; [injection E as <- _; reflexivity|discriminate].
+Qed.
+
+Lemma do_hello_spec b h c cn hl : WF h -> TI h -> unattached h c -> hello_on b h hl ->
+  TI (fst (do_hello h c cn hl)) /\ Loc b (Some c) h (do_hello h c cn hl).
+Proof.
+  intros W TIh Hu Hon. unfold do_hello.
+  assert (Hexp : forall hh outs, h_sessions hh = h_sessions h -> h_rooms hh = h_rooms h -> h_bus hh = h_bus h ->
+            h_conns hh = h_conns h -> own_outs c outs ->
+            TI (set_conns hh (aset (h_conns hh) c (mkconn (c_addr cn) None true))) /\
+            Loc b (Some c) h (set_conns hh (aset (h_conns hh) c (mkconn (c_addr cn) None true)), outs)).
+  { intros hh outs Es Er Eb Ec Ho. apply conn_only_spec; auto.
+    intros c' Hne. cbn [h_conns set_conns]. rewrite Ec. now apply aget_aset_other. }
+  assert (Hown1 : forall m, own_outs c [ToConn c m]) by (intros m c' m' [E|[]]; now injection E as <- _).
+  assert (Hown2 : forall q m, own_outs c [ToBackend q; ToConn c m]) by (intros q m c' m' [E|[E|[]]]; [discriminate|now injection E as <- _]).
+  destruct hl as [b' u rej|b' u t|b' tok f d|i]; cbn [hello_on] in Hon.
+  - subst b'. destruct (h_nb h <=? b); [now apply Hexp|]. destruct rej; [now apply Hexp|].
+    destruct (register_spec b h c cn KClient u W TIh eq_refl Hu) as [TR [F O]].
+    destruct (register h c cn b KClient u) as [h1 outs]. cbn [fst snd] in *. split; [exact TR|].
+    split; [exact F|]. apply outs_ok_cons_other; [intros; discriminate|exact O].
+  - subst b'. destruct (v2_check (h_nb h) b t); [now apply register_spec|now apply Hexp].
+  - subst b'. destruct (throttled h (c_addr cn) ACT_INTERNAL); [now apply Hexp|].
+    destruct (negb (N.eqb tok 0)); [now apply (Hexp (record_failure h (c_addr cn) ACT_INTERNAL))|].
+    destruct (h_nb h <=? b); [now apply (Hexp (record_failure h (c_addr cn) ACT_INTERNAL))|].
+    now apply register_spec.
+  - destruct (throttled h (c_addr cn) ACT_RESUME).
+    { apply conn_only_spec; auto. }
+    destruct i as [n|n|k|n]; try (apply conn_only_spec; auto; fail).
+    destruct (get_sess h n) as [s|] eqn:Hs; [|apply conn_only_spec; auto].
+    destruct (is_virtual (s_kind s)) eqn:Hv; [apply conn_only_spec; auto|].
+    assert (Hb : s_backend s = b) by now apply Hon.
+    destruct (resume_pre h c n s B_session_resumed Hs (proj2 TIh) Hu) as (Es1 & Er1 & Eb1 & En1 & Ec1 & Eo1).
+    match goal with |- context [let '(h1, outs1) := ?X in _] => destruct X as [h1 outs1] end. cbn [fst snd] in *.
+    set (s1 := sess_pending (sess_conn s (Some c)) []).
+    match goal with |- context [(?hh, outs1 ++ _)] => set (h5 := hh) end.
+    assert (E5s : h_sessions h5 = aset (h_sessions h) n s1) by (cbn; now rewrite Es1).
+    assert (E5r : h_rooms h5 = h_rooms h) by (cbn; exact Er1).
+    assert (E5b : h_bus h5 = h_bus h) by (cbn; exact Eb1).
+    assert (E5c : h_conns h5 = aset (h_conns h1) c (mkconn (c_addr cn) (Some n) false)) by reflexivity.
+    cbn [fst]. split; [split|split].
+    + apply (ten_shr h); [apply TIh|]. apply (shr_aset h h5 n s s1); [exact E5s|exact E5r|exact En1|exact Hs|now apply keeps_same].
+    + intros tid c' (t & Ht & Hc). unfold get_sess in Ht. rewrite E5s, aget_aset in Ht. unfold attached. rewrite E5c.
+      destruct (N.eqb_spec tid n) as [->|Hne].
+      * injection Ht as <-. cbn in Hc. injection Hc as <-. rewrite aget_aset_same. eexists. split; reflexivity.
+      * destruct (proj2 TIh tid c' (ex_intro _ t (conj Ht Hc))) as (cn0 & Hcn & Hcs).
+        assert (Hcc : c' <> c) by (intros ->; rewrite (Hu cn0 Hcn) in Hcs; discriminate).
+        assert (Hcs' : s_conn s <> Some c').
+        { intros Hsc. apply Hne. apply (attached_fun h c'); [exists cn0; auto|]. apply (proj2 TIh). exists s. auto. }
+        exists cn0. rewrite aget_aset_other by exact Hcc. rewrite (Ec1 c' Hcs'). auto.
+    + apply (fr_aset b (Some c) h h5 n s1 E5s E5r E5b); [exact Hon|exact Hb|].
+      intros c' Hc'. cbn in Hc'. left. congruence.
+    + cbn [snd]. apply outs_ok_app.
+      * intros c' m Hin. right. exists n, s. split; [exact Hs|]. split; [exact Hb|]. now apply (Eo1 c' m).
+      * apply own_outs_ok. intros c' m [E|Hin]; [now injection E as <- _|].
+        unfold flush in Hin. apply in_map_iff in Hin as (m0 & E & _). now injection E as <- _.
+Qed.
+
+(* ------------------------------------------------------------------ virtual sessions *)
+Lemma ti_close_one h x : TI h -> TI (fst (close_one h x)).
+Proof. intros TIh. apply (ti_next h); [exact TIh|apply shr_close_one|apply bij_close_one, TIh]. Qed.
+
+Lemma vt_bsid b h sid s v vs : WF h -> Ten h -> get_sess h sid = Some s -> s_backend s = b ->
+  pget (h_vtable h) (sid, v) = Some vs -> bsid b h vs.
+Proof.
+  intros W T Hs Hb Hv t Ht. destruct (wf_vt _ _ h W sid v vs Hv) as (sp & Hsp & Hk).
+  rewrite Hsp in Ht. injection Ht as <-. rewrite <- Hb. symmetry. apply (t_parent h T vs sp sid v Hsp Hk s Hs).
+Qed.
+
+Lemma ti_put_keep h x s s' : TI h -> get_sess h x = Some s -> keeps s s' -> s_conn s' = s_conn s -> TI (put_sess h x s').
+Proof.
+  intros TIh Hs K Hc. apply (ti_next h); [exact TIh|now apply shr_put with s|].
+  apply (bij_ceq h); [|apply TIh]. apply ceq_put with s; auto.
+Qed.
+
+Lemma do_internal_spec b h c sid s q : WF h -> TI h -> get_sess h sid = Some s -> s_backend s = b ->
+  TI (fst (do_internal h c sid s q)) /\ Loc b (Some c) h (do_internal h c sid s q).
+Proof.
+  intros W TIh Hs Hb. set (oc := Some c). unfold do_internal.
+  assert (Hsid : bsid b h sid) by (intros t Ht; congruence).
+  destruct q as [v rn user flags incall|v rn flags incall|v rn|ic].
+  - (* add *)
+    set (k := (s_backend s, rn)). assert (Hk : fst k = b) by exact Hb.
+    destruct (room_of h k) as [r|] eqn:Hroom; [|split; [exact TIh|apply loc_ret]].
+    set (vs := next_id h). set (h0 := set_nextsid h vs).
+    assert (Hprev : pget (h_vtable h0) (sid, v) = pget (h_vtable h) (sid, v)) by reflexivity.
+    match goal with |- context [mksess (s_backend s) (KVirtual sid v) user (Some k) (2000000 + vs) None None [] [] 0 ?ic ?fl [] [] [] 0] =>
+      set (icv := ic); set (flv := fl); set (vsess := mksess (s_backend s) (KVirtual sid v) user (Some k) (2000000 + vs) None None [] [] 0 ic fl [] [] [] 0) end.
+    set (r' := mkroom (nadd vs (r_members r)) (r_incall r) (r_sessdata r) (r_transient r) (r_props r)).
+    set (hr := set_rooms h0 (pset (h_rooms h0) k r')).
+    set (h1 := put_sess hr vs vsess).
+    assert (Hfresh : get_sess h vs = None) by apply next_id_fresh.
+    assert (T1 : Ten h1).
+    { apply (ten_new h h1 vs vsess W (proj1 TIh) Hfresh); [reflexivity| | |].
+      - intros k0 Hk0. cbn in Hk0. injection Hk0 as <-. reflexivity.
+      - intros p0 v0 Hk0. cbn in Hk0. injection Hk0 as <- <-. intros t Ht. cbn. congruence.
+      - intros k0 r0 m Hr0 Hm. change (room_of h1 k0) with (pget (pset (h_rooms h) k r') k0) in Hr0.
+        rewrite pget_pset in Hr0. destruct (pair_eqb_spec k0 k) as [->|Hne].
+        + injection Hr0 as <-. cbn [r_members r'] in Hm. apply nmem_In in Hm. rewrite nmem_nadd in Hm.
+          apply orb_prop in Hm as [Hm|Hm]; [apply N.eqb_eq in Hm; left; split; [exact Hm|reflexivity]|].
+          right. apply nmem_In in Hm. eauto.
+        + right. eauto. }
+    assert (B1 : Bij h1).
+    { apply (bij_ceq h); [|apply TIh]. constructor; [reflexivity|].
+      intros tid c' (t & Ht & Hc'). change (get_sess h1 tid) with (aget (aset (h_sessions h) vs vsess) tid) in Ht.
+      rewrite aget_aset in Ht. destruct (N.eqb_spec tid vs) as [->|Hne]; [injection Ht as <-; discriminate|]. exists t. auto. }
+    assert (F1 : Fr b oc h h1).
+    { eapply fr_trans; [apply (fr_eq b oc h h0); reflexivity|].
+      eapply fr_trans; [apply (fr_set_room b oc h0 k r' Hk)|]. fold hr.
+      apply (fr_aset b oc hr h1 vs vsess); try reflexivity.
+      - intros t Ht. change (get_sess hr vs) with (get_sess h vs) in Ht. congruence.
+      - exact Hb.
+      - intros c' Hc'. discriminate. }
+    assert (Hvs1 : bsid b h1 vs) by (intros t Ht; unfold h1 in Ht; rewrite gp_same in Ht; injection Ht as <-; exact Hb).
+    set (h2 := set_vtable h1 (pset (h_vtable h1) (sid, v) vs)).
+    set (h5 := rs_set h2 vs (2000000 + vs)).
+    assert (E5 : h_sessions h5 = h_sessions h1 /\ h_rooms h5 = h_rooms h1 /\ h_bus h5 = h_bus h1 /\ h_conns h5 = h_conns h1).
+    { unfold h5. rewrite rs_set_sessions, rs_set_rooms, rs_set_bus, rs_set_conns. auto. }
+    destruct E5 as (E5s & E5r & E5b & E5c).
+    assert (TI5 : TI h5) by (apply (ti_ext h1); auto; split; assumption).
+    assert (F5 : Fr b oc h1 h5) by (apply fr_eq; auto).
+    set (h6 := publish h5 (SubjRoom (fst k) (snd k)) (ARoomEvent (SJoin [(vs, user)]))).
+    set (h7 := publish h6 (SubjRoom (fst k) (snd k)) (AEvent (SPart 0) 0 false)).
+    set (h8 := if N.eqb flv 0 then h7 else publish h7 (SubjRoom (fst k) (snd k)) (AEvent (SFlags vs flv) 0 false)).
+    set (h9 := publish h8 (SubjBackendRoom (fst k) (snd k)) (ASessionJoined vs false)).
+    assert (F8 : Fr b oc h5 h8).
+    { apply fr_trans with h6; [apply fr_publish; now apply pub_ok_plain|].
+      apply fr_trans with h7; [apply fr_publish; now apply pub_ok_plain|].
+      unfold h8. destruct (N.eqb flv 0); [apply fr_refl|]. apply fr_publish. now apply pub_ok_plain. }
+    assert (TI8 : TI h8).
+    { unfold h8. destruct (N.eqb flv 0); [|apply ti_publish]; apply ti_publish, ti_publish, TI5. }
+    assert (F18 : Fr b oc h1 h8) by (eapply fr_trans; eauto).
+    assert (F9 : Fr b oc h8 h9).
+    { apply fr_publish. split; cbn; [exact Hk|]. eapply bsid_fr; eauto. }
+    assert (TI9 : TI h9) by now apply ti_publish.
+    assert (F09 : Fr b oc h h9) by (eapply fr_trans; [exact F1|]; eapply fr_trans; eauto).
+    set (Y := match pget (h_vtable h) (sid, v) with Some pv => close_one h9 pv | None => (h9, []) end).
+    assert (L10 : TI (fst Y) /\ Fr b oc h9 (fst Y) /\ noconn (snd Y)).
+    { unfold Y. destruct (pget (h_vtable h) (sid, v)) as [pv|] eqn:Hpv; [|split; [exact TI9|split; [apply fr_refl|apply noconn_nil]]].
+      split; [now apply ti_close_one|]. split; [|apply noconn_close_one].
+      apply fr_close_one; [apply TI9|]. eapply bsid_fr; [exact F09|]. apply (vt_bsid b h sid s v pv W (proj1 TIh) Hs Hb Hpv). }
+    destruct L10 as (TI10 & F10 & N10).
+    match goal with |- context [let '(h10, outs10) := ?X in _] => change X with Y end.
+    destruct Y as [h10 o10]. cbn [fst snd] in *.
+    split; [exact TI10|]. apply loc_noconn; cbn [fst snd]; [eapply fr_trans; eauto|].
+    apply noconn_cons; [intros; discriminate|exact N10].
+  - (* update *)
+    set (k := (s_backend s, rn)). assert (Hk : fst k = b) by exact Hb.
+    destruct (room_of h k) as [r|]; [|split; [exact TIh|apply loc_ret]].
+    destruct (pget (h_vtable h) (sid, v)) as [vs|] eqn:Hv; [|split; [exact TIh|apply loc_ret]].
+    destruct (get_sess h vs) as [t|] eqn:Ht; [|split; [exact TIh|apply loc_ret]].
+    assert (Hvs : bsid b h vs) by (apply (vt_bsid b h sid s v vs W (proj1 TIh) Hs Hb Hv)).
+    assert (Hbt : s_backend t = b) by now apply Hvs.
+    match goal with |- context [put_sess h vs ?s1] => set (t1 := s1) end.
+    set (h1 := put_sess h vs t1).
+    assert (F1 : Fr b oc h h1) by (apply fr_put with t; auto).
+    assert (TI1 : TI h1) by (apply (ti_put_keep h vs t t1); auto; now apply keeps_same).
+    match goal with |- context [if ?fc then publish h1 ?sj ?m else h1] => set (h2 := if fc then publish h1 sj m else h1) end.
+    assert (F2 : Fr b oc h1 h2 /\ TI h2).
+    { unfold h2. match goal with |- context [if ?fc then _ else _] => destruct fc end; [|split; [apply fr_refl|exact TI1]].
+      split; [apply fr_publish; now apply pub_ok_plain|now apply ti_publish]. }
+    destruct F2 as [F2 TI2].
+    match goal with |- context [if ?icc then publish (set_incall h2 k vs ?on) ?sj ?m else h2] =>
+      assert (F3 : Fr b oc h2 (if icc then publish (set_incall h2 k vs on) sj m else h2) /\
+                   TI (if icc then publish (set_incall h2 k vs on) sj m else h2)) end.
+    { match goal with |- context [if ?icc then _ else _] => destruct icc end; [|split; [apply fr_refl|exact TI2]].
+      split; [|now apply ti_publish, ti_set_incall].
+      eapply fr_trans; [now apply (fr_set_incall b oc h2 k vs)|]. apply fr_publish. now apply pub_ok_plain. }
+    destruct F3 as [F3 TI3]. cbn [fst]. split; [exact TI3|]. apply loc_fr.
+    eapply fr_trans; [exact F1|]. eapply fr_trans; eauto.
+  - (* remove *)
+    set (k := (s_backend s, rn)).
+    destruct (room_of h k) as [r|]; [|split; [exact TIh|apply loc_ret]].
+    destruct (pget (h_vtable h) (sid, v)) as [vs|] eqn:Hv; [|split; [exact TIh|apply loc_ret]].
+    assert (Hvs : bsid b h vs) by (apply (vt_bsid b h sid s v vs W (proj1 TIh) Hs Hb Hv)).
+    set (h1 := set_vtable h (pdel (h_vtable h) (sid, v))).
+    assert (TI1 : TI h1) by (apply (ti_ext h); auto).
+    split; [now apply ti_close_one|]. apply loc_noconn; [|apply noconn_close_one].
+    eapply fr_trans; [apply (fr_eq b oc h h1); reflexivity|]. apply fr_close_one; [apply TI1|exact Hvs].
+  - (* in-call flags of the internal session itself *)
+    destruct (N.eqb ic (s_incall s)); [split; [exact TIh|apply loc_ret]|].
+    match goal with |- context [put_sess h sid ?s1] => set (s1' := s1) end.
+    set (h1 := put_sess h sid s1').
+    assert (F1 : Fr b oc h h1) by (apply fr_put with s; auto).
+    assert (TI1 : TI h1) by (apply (ti_put_keep h sid s s1'); auto; now apply keeps_same).
+    destruct (s_room s) as [k0|] eqn:Hr; [|split; [exact TI1|now apply loc_fr]].
+    assert (Hk0 : fst k0 = b) by (rewrite <- Hb; apply (t_room h (proj1 TIh) sid s k0 Hs Hr)).
+    destruct (N.testbit ic 0).
+    + cbn [fst]. split; [now apply ti_publish, ti_set_incall|]. apply loc_fr.
+      eapply fr_trans; [exact F1|]. eapply fr_trans; [now apply (fr_set_incall b oc h1 k0 sid true)|].
+      apply fr_publish. now apply pub_ok_plain.
+    + set (hi := set_incall h1 k0 sid false).
+      assert (Fi : Fr b oc h1 hi) by now apply fr_set_incall.
+      assert (TIi : TI hi) by now apply ti_set_incall.
+      pose proof (fr_leave_call b oc hi sid) as F2. pose proof (noconn_leave_call hi sid) as N2.
+      pose proof (ti_leave_call hi sid TIi) as TI2.
+      destruct (leave_call hi sid) as [h2 o2]. cbn [fst snd] in *.
+      split; [now apply ti_publish|]. apply loc_noconn; cbn [fst snd]; [|exact N2].
+      eapply fr_trans; [exact F1|]. eapply fr_trans; [exact Fi|]. eapply fr_trans; [apply F2|].
+      * eapply bsid_fr; [exact Fi|]. eapply bsid_fr; [exact F1|exact Hsid].
+      * apply fr_publish. now apply pub_ok_plain.
+Qed.
+
+(* ------------------------------------------------------------------ one step keeps the invariants *)
+Lemma with_session_spec (P : hub * list out -> Prop) h c f :
+  P (h, []) -> P (h, [ToConn c (SError E_hello_expected)]) ->
+  (forall cn sid s, aget (h_conns h) c = Some cn -> c_sess cn = Some sid -> get_sess h sid = Some s -> P (f cn sid s)) ->
+  P (with_session h c f).
+Proof.
+  intros H0 H1 Hf. unfold with_session. destruct (aget (h_conns h) c) as [cn|] eqn:Hc; [|exact H0].
+  destruct (c_sess cn) as [sid|] eqn:Hs; [|exact H1]. destruct (get_sess h sid) as [s|] eqn:Hg; [|exact H1]. now apply (Hf cn sid s).
+Qed.
+
+Lemma hello_on_ex h hl : exists b, hello_on b h hl.
+Proof.
+  destruct hl as [b u r|b u t|b t f d|i]; try (exists b; reflexivity).
+  destruct i as [n|n|k|n]; try (exists 0; exact I).
+  destruct (get_sess h n) as [s|] eqn:Hs; [exists (s_backend s); intros t Ht; cbn; congruence|exists 0; intros t Ht; cbn in *; congruence].
+Qed.
+
+Lemma ti_revoke h x : TI h -> TI (fst (revoke h x)).
+Proof. intros TIh. apply (ti_next h); [exact TIh|apply shr_revoke|apply bij_revoke, TIh]. Qed.
+
+Lemma ti_fold_send h l m : TI h -> TI (fst (fold_sessions h l (fun hh x => send_session hh x m))).
+Proof. intros TIh. apply wf_fold_sessions; [exact TIh|]. intros hh x. apply ti_send_session. Qed.
+
+(* the transient-data request of a session in room k *)
+Definition transient_body (h : hub) (k : N * N) (r : room) (kindn key val : N) : hub * list out :=
+  let listeners := filter (fun m => match get_sess h m with Some t => negb (is_virtual t.(s_kind)) | None => false end) r.(r_members) in
+  if N.eqb kindn 0 then
+    match aget r.(r_transient) key with
+    | Some v => if N.eqb v val then (h, [])
+                else let h1 := set_rooms h (pset h.(h_rooms) k (mkroom r.(r_members) r.(r_incall) r.(r_sessdata) (aset r.(r_transient) key val) r.(r_props))) in
+                     fold_sessions h1 listeners (fun hh m => send_session hh m (STransient 1 key))
+    | None => let h1 := set_rooms h (pset h.(h_rooms) k (mkroom r.(r_members) r.(r_incall) r.(r_sessdata) (aset r.(r_transient) key val) r.(r_props))) in
+              fold_sessions h1 listeners (fun hh m => send_session hh m (STransient 1 key))
+    end
+  else
+    match aget r.(r_transient) key with
+    | Some _ => let h1 := set_rooms h (pset h.(h_rooms) k (mkroom r.(r_members) r.(r_incall) r.(r_sessdata) (adel r.(r_transient) key) r.(r_props))) in
+                fold_sessions h1 listeners (fun hh m => send_session hh m (STransient 2 key))
+    | None => (h, [])
+    end.
+
+Lemma transient_body_spec b oc h k r kindn key val : TI h -> room_of h k = Some r -> fst k = b ->
+  TI (fst (transient_body h k r kindn key val)) /\ Loc b oc h (transient_body h k r kindn key val).
+Proof.
+  intros TIh Hr Hk. unfold transient_body.
+  set (listeners := filter (fun m => match get_sess h m with Some t => negb (is_virtual (s_kind t)) | None => false end) (r_members r)).
+  assert (Hl : forall x, In x listeners -> bsid b h x).
+  { intros x Hx. apply filter_In in Hx as [Hx _]. rewrite <- Hk. apply (t_member h (proj1 TIh) k r x Hr Hx). }
+  assert (G : forall tr m, let h1 := set_rooms h (pset (h_rooms h) k (mkroom (r_members r) (r_incall r) (r_sessdata r) tr (r_props r))) in
+            TI (fst (fold_sessions h1 listeners (fun hh x => send_session hh x m))) /\
+            Loc b oc h (fold_sessions h1 listeners (fun hh x => send_session hh x m))).
+  { intros tr m h1.
+    assert (F1 : Fr b oc h h1) by now apply fr_set_room.
+    assert (TI1 : TI h1).
+    { apply ti_set_rooms; [|exact TIh]. intros k' r' Hr'. rewrite pget_pset in Hr'. destruct (pair_eqb_spec k' k) as [->|Hne].
+      - injection Hr' as <-. exists r. split; [exact Hr|apply incl_refl].
+      - exists r'. split; [exact Hr'|apply incl_refl]. }
+    split; [now apply ti_fold_send|]. eapply loc_after_fr; [exact F1|].
+    apply (loc_fold_sessions TI); [exact TI1| | |].
+    - intros x Hx. eapply bsid_fr; [exact F1|now apply Hl].
+    - intros hh x Th Hx. now apply loc_send_session.
+    - intros hh x Th. now apply ti_send_session. }
+  destruct (N.eqb kindn 0).
+  - destruct (aget (r_transient r) key) as [v0|]; [destruct (N.eqb v0 val); [split; [exact TIh|apply loc_ret]|]|]; apply G.
+  - destruct (aget (r_transient r) key); [apply G|split; [exact TIh|apply loc_ret]].
+Qed.
+
+Lemma step_transient h c kindn key val :
+  step h (OTransient c kindn key val) =
+  with_session h c (fun cn sid s =>
+    match s.(s_room) with
+    | None => (h, [ToConn c (SError E_not_in_room)])
+    | Some k => if negb (allowed_transient s) then (h, [ToConn c (SError E_not_allowed)])
+                else match room_of h k with None => (h, []) | Some r => transient_body h k r kindn key val end
+    end).
+Proof. reflexivity. Qed.
+
+Lemma drop_state h c cn sid s : aget (h_conns h) c = Some cn -> c_sess cn = Some sid -> get_sess h sid = Some s ->
+  let h2 := put_sess (set_conns h (adel (h_conns h) c)) sid (sess_conn s None) in
+  let h3 := set_clients h2 (nrem sid (h_clients h2)) in
+  step h (ODrop c) = (set_expired h3 (nadd sid (h_expired h3)), [Closed c]).
+Proof.
+  intros Hc Hs Hg. cbn [step]. rewrite Hc, Hs.
+  change (get_sess (set_conns h (adel (h_conns h) c)) sid) with (get_sess h sid). rewrite Hg. reflexivity.
+Qed.
+
+Theorem ti_step h o : WF h -> TI h -> TI (fst (step h o)).
+Proof.
+  intros W TIh. destruct o as [c addr|c hl|c rn rs rep|c to tag|c to tag|c|c|secs|b signas room q|c q|c to mk stream media|tok ok|c kindn key val|pos|c hl late].
+  - (* connect *)
+    cbn [step]. destruct (aget (h_conns h) c) as [cn|] eqn:Hc; [exact TIh|]. cbn [fst].
+    apply (conn_only_spec 0 c h _ [] TIh); try reflexivity.
+    + intros cn0 Hcn0. congruence.
+    + intros c' Hne. cbn [h_conns set_conns]. now apply aget_aset_other.
+    + intros c' m [].
+  - (* hello *)
+    cbn [step]. destruct (aget (h_conns h) c) as [cn|] eqn:Hc; [|exact TIh]. destruct (c_sess cn) eqn:Hs; [exact TIh|].
+    match goal with |- context [do_hello ?hh c cn hl] => set (h' := hh) end.
+    assert (Hu : unattached h c) by (intros cn0 Hcn0; congruence).
+    assert (TI' : TI h').
+    { apply (conn_only_spec 0 c h h' [] TIh Hu); try reflexivity.
+      - intros c' Hne. cbn [h' h_conns set_conns]. now apply aget_aset_other.
+      - intros c' m []. }
+    assert (Hu' : unattached h' c).
+    { intros cn0 Hcn0. unfold h' in Hcn0. cbn [h_conns set_conns] in Hcn0. rewrite aget_aset_same in Hcn0. now injection Hcn0 as <-. }
+    assert (W' : WF h') by (apply wf_set_conn_nosess; [exact W|reflexivity]).
+    destruct (hello_on_ex h' hl) as [b Hon]. apply (do_hello_spec b h' c cn hl W' TI' Hu' Hon).
+  - (* join *)
+    cbn [step]. apply (with_session_spec (fun r => TI (fst r))); try exact TIh.
+    intros cn sid s Hc Hs Hg. destruct (do_join_spec (s_backend s) None h c sid s rn rs rep TIh Hg eq_refl) as [TJ _].
+    destruct (do_join h c sid s rn rs rep) as [h1 o1]. cbn [fst] in TJ.
+    destruct rep as [[p|] su|code]; try exact TJ.
+    destruct (get_sess h1 sid) as [s1|]; [|exact TJ].
+    match goal with |- context [if ?cnd then _ else _] => destruct cnd end; [|exact TJ].
+    pose proof (ti_revoke h1 sid TJ) as TR. destruct (revoke h1 sid) as [h2 o2]. exact TR.
+  - cbn [step]. apply (with_session_spec (fun r => TI (fst r))); try exact TIh.
+    intros cn sid s Hc Hs Hg. apply (ti_next h); [exact TIh|apply shr_do_message|apply bij_do_message, TIh].
+  - cbn [step]. apply (with_session_spec (fun r => TI (fst r))); try exact TIh.
+    intros cn sid s Hc Hs Hg. destruct (allowed_control s); [|exact TIh].
+    apply (ti_next h); [exact TIh|apply shr_do_message|apply bij_do_message, TIh].
+  - (* bye *)
+    cbn [step]. destruct (aget (h_conns h) c) as [cn|]; [|exact TIh]. destruct (c_sess cn); [|exact TIh]. now apply ti_send_conn.
+  - (* drop *)
+    destruct (aget (h_conns h) c) as [cn|] eqn:Hc; [|cbn [step]; rewrite Hc; exact TIh].
+    destruct (c_sess cn) as [sid|] eqn:Hs.
+    + destruct (get_sess h sid) as [s|] eqn:Hg.
+      * rewrite (drop_state h c cn sid s Hc Hs Hg). cbn [fst].
+        assert (E : put_sess (set_conns h (adel (h_conns h) c)) sid (sess_conn s None) = conn_gone h c sid).
+        { unfold conn_gone. change (get_sess (set_conns h (adel (h_conns h) c)) sid) with (get_sess h sid). now rewrite Hg. }
+        rewrite E. apply (ti_ext (conn_gone h c sid)); try reflexivity. split.
+        -- apply (ten_shr h); [apply TIh|]. rewrite <- E.
+           eapply shr_trans; [apply (shr_eq h (set_conns h (adel (h_conns h) c))); reflexivity|].
+           apply shr_put with s; [exact Hg|now apply keeps_same].
+        -- apply (bij_conn_gone h c cn sid); [apply TIh|exact Hc|exact Hs].
+      * cbn [step]. rewrite Hc, Hs. change (get_sess (set_conns h (adel (h_conns h) c)) sid) with (get_sess h sid). rewrite Hg. cbn [fst].
+        split; [apply (ten_ext h); [apply TIh|reflexivity|reflexivity]|].
+        intros tid c' (t & Ht & Hct). change (get_sess h tid = Some t) in Ht.
+        destruct (proj2 TIh tid c' (ex_intro _ t (conj Ht Hct))) as (cn' & Hcn' & Hcs').
+        assert (Hcc : c' <> c) by (intros ->; rewrite Hc in Hcn'; injection Hcn' as <-; congruence).
+        exists cn'. cbn [h_conns set_conns]. now rewrite aget_adel_other.
+    + cbn [step]. rewrite Hc, Hs. cbn [fst].
+      split; [apply (ten_ext h); [apply TIh|reflexivity|reflexivity]|].
+      intros tid c' (t & Ht & Hct). destruct (proj2 TIh tid c' (ex_intro _ t (conj Ht Hct))) as (cn' & Hcn' & Hcs').
+      assert (Hcc : c' <> c) by (intros ->; congruence).
+      exists cn'. cbn [h_conns set_conns]. now rewrite aget_adel_other.
+  - cbn [step]. apply (ti_next h); [exact TIh|apply shr_do_tick|apply bij_do_tick, TIh].
+  - cbn [step]. destruct (negb (N.eqb b signas) || (h_nb h <=? b)); [exact TIh|now apply ti_do_api].
+  - cbn [step]. apply (with_session_spec (fun r => TI (fst r))); try exact TIh.
+    intros cn sid s Hc Hs Hg. destruct (is_internal (s_kind s)); [|exact TIh].
+    apply (do_internal_spec (s_backend s) h c sid s q W TIh Hg eq_refl).
+  - cbn [step]. apply (with_session_spec (fun r => TI (fst r))); try exact TIh.
+    intros cn sid s Hc Hs Hg. apply (ti_next h); [exact TIh|now apply shr_do_media|now apply bij_do_media; [|apply TIh]].
+  - cbn [step]. apply (ti_next h); [exact TIh|apply shr_do_mcudone|apply bij_do_mcudone, TIh].
+  - rewrite step_transient. apply (with_session_spec (fun r => TI (fst r))); try exact TIh.
+    intros cn sid s Hc Hs Hg. destruct (s_room s) as [k|] eqn:Hr; [|exact TIh].
+    destruct (negb (allowed_transient s)); [exact TIh|]. destruct (room_of h k) as [r|] eqn:Hroom; [|exact TIh].
+    apply (transient_body_spec (fst k) None h k r kindn key val TIh Hroom eq_refl).
+  - cbn [step]. now apply ti_deliver_at.
+  - (* aborted hello *)
+    cbn [step]. destruct (aget (h_conns h) c) as [cn|]; [|exact TIh]. destruct (c_sess cn); [exact TIh|].
+    destruct hl as [b u rej|b u t|b t f d|i]; try exact TIh.
+    + destruct rej; [exact TIh|]. destruct (h_nb h <=? b); [exact TIh|].
+      match goal with |- context [close_conn ?hh c] => pose proof (ti_close_conn hh c) as TC; destruct (close_conn hh c) as [h2 o2] end.
+      cbn [fst] in *. apply TC. destruct late; [apply (ti_ext h); auto|exact TIh].
+    + now apply ti_close_conn.
+Qed.
+
+(* ------------------------------------------------------------------ one step touches one backend *)
+Definition op_conn (o : op) : option N :=
+  match o with
+  | OConnect c _ | OHello c _ | OJoin c _ _ _ | OMsg c _ _ | OCtl c _ _ | OBye c | ODrop c | OInternal c _
+  | OMedia c _ _ _ _ | OTransient c _ _ _ | OHelloAborted c _ _ => Some c
+  | OTick _ | OApi _ _ _ _ | OMcuDone _ _ | ODeliver _ => None
+  end.
+(* the session attached to the connection, if any, is a session of b *)
+Definition conn_on (b : N) (h : hub) (c : N) : Prop :=
+  forall cn sid s, aget (h_conns h) c = Some cn -> c_sess cn = Some sid -> get_sess h sid = Some s -> s_backend s = b.
+(* the op acts on behalf of backend b.  The clock, deliveries and completions of the media server
+   are not attributable to a backend (deliver_local, mcudone_local below). *)
+Definition op_on (b : N) (h : hub) (o : op) : Prop :=
+  match o with
+  | OApi b' _ _ _ => b' = b
+  | OHello _ hl => hello_on b h hl
+  | OConnect _ _ | OHelloAborted _ _ _ => True
+  | OJoin c _ _ _ | OMsg c _ _ | OCtl c _ _ | OBye c | ODrop c | OInternal c _ | OMedia c _ _ _ _ | OTransient c _ _ _ => conn_on b h c
+  | OTick _ | ODeliver _ | OMcuDone _ _ => False
+  end.
+
+Lemma loc_own b c h m : Loc b (Some c) h (h, [ToConn c m]).
+Proof. split; [apply fr_refl|]. apply outs_ok_cons_own; [reflexivity|apply outs_ok_nil]. Qed.
+
+Lemma close_unattached h c cn : aget (h_conns h) c = Some cn -> c_sess cn = None ->
+  close_conn h c = (set_conns h (adel (h_conns h) c), [Closed c]).
+Proof. intros Hc Hs. unfold close_conn. now rewrite Hc, Hs. Qed.
+
+Theorem step_local b h o : WF h -> TI h -> rs_local h o = true -> op_on b h o -> Loc b (op_conn o) h (step h o).
+Proof.
+  intros W TIh Hl Hon.
+  destruct o as [c addr|c hl|c rn rs rep|c to tag|c to tag|c|c|secs|b' signas room q|c q|c to mk stream media|tok ok|c kindn key val|pos|c hl late];
+    cbn [op_conn op_on] in *; try contradiction.
+  - (* connect *)
+    cbn [step]. destruct (aget (h_conns h) c) as [cn|]; [apply loc_ret|].
+    split; cbn [fst snd]; [apply fr_eq; reflexivity|]. apply outs_ok_cons_own; [reflexivity|apply outs_ok_nil].
+  - (* hello *)
+    cbn [step]. destruct (aget (h_conns h) c) as [cn|] eqn:Hc; [|apply loc_ret]. destruct (c_sess cn) eqn:Hs; [apply loc_ret|].
+    match goal with |- context [do_hello ?hh c cn hl] => set (h' := hh) end.
+    assert (Hu : unattached h c) by (intros cn0 Hcn0; congruence).
+    destruct (conn_only_spec b c h h' [] TIh Hu) as [TI' [F' _]]; try reflexivity.
+    { intros c' Hne. cbn [h' h_conns set_conns]. now apply aget_aset_other. }
+    { intros c' m []. }
+    assert (Hu' : unattached h' c).
+    { intros cn0 Hcn0. unfold h' in Hcn0. cbn [h_conns set_conns] in Hcn0. rewrite aget_aset_same in Hcn0. now injection Hcn0 as <-. }
+    assert (W' : WF h') by (apply wf_set_conn_nosess; [exact W|reflexivity]).
+    eapply loc_after_fr; [exact F'|]. apply (do_hello_spec b h' c cn hl W' TI' Hu'). exact Hon.
+  - (* join *)
+    cbn [step]. apply (with_session_spec (Loc b (Some c) h)); [apply loc_ret|apply loc_own|].
+    intros cn sid s Hc Hs Hg. assert (Hb : s_backend s = b) by (apply (Hon cn sid s); auto).
+    destruct (do_join_spec b (Some c) h c sid s rn rs rep TIh Hg Hb) as [TJ LJ].
+    assert (Hko : kick_ok b h rs).
+    { cbn [rs_local] in Hl. unfold conn_backend in Hl. rewrite Hc, Hs, Hg, Hb in Hl. intros x Hx. rewrite Hx in Hl. now apply sess_on_spec. }
+    specialize (LJ Hko). destruct (do_join h c sid s rn rs rep) as [h1 o1]. cbn [fst] in TJ.
+    destruct rep as [[p|] su|code]; try exact LJ.
+    destruct (get_sess h1 sid) as [s1|]; [|exact LJ].
+    match goal with |- context [if ?cnd then _ else _] => destruct cnd end; [|exact LJ].
+    assert (L2 : Loc b (Some c) h1 (revoke h1 sid)).
+    { apply loc_noconn; [|apply noconn_revoke]. apply fr_revoke. eapply bsid_fr; [apply LJ|]. intros t Ht. congruence. }
+    destruct (revoke h1 sid) as [h2 o2]. apply (loc_bind b (Some c) h (h1, o1) (h2, o2)); assumption.
+  - cbn [step]. apply (with_session_spec (Loc b (Some c) h)); [apply loc_ret|apply loc_own|].
+    intros cn sid s Hc Hs Hg. apply loc_do_message; auto. apply (Hon cn sid s); auto.
+  - cbn [step]. apply (with_session_spec (Loc b (Some c) h)); [apply loc_ret|apply loc_own|].
+    intros cn sid s Hc Hs Hg. destruct (allowed_control s); [|apply loc_ret]. apply loc_do_message; auto. apply (Hon cn sid s); auto.
+  - (* bye *)
+    cbn [step]. destruct (aget (h_conns h) c) as [cn|] eqn:Hc; [|apply loc_ret]. destruct (c_sess cn) as [sid|] eqn:Hs; [|apply loc_own].
+    apply loc_send_conn; [exact TIh|now left|]. intros cn0 x Hcn0 Hx. rewrite Hc in Hcn0. injection Hcn0 as <-.
+    destruct (wf_conns _ _ h W c cn x Hc Hx) as (s & Hg & _). exists s. split; [exact Hg|]. apply (Hon cn x s); auto.
+  - (* drop *)
+    destruct (aget (h_conns h) c) as [cn|] eqn:Hc; [|cbn [step]; rewrite Hc; apply loc_ret].
+    destruct (c_sess cn) as [sid|] eqn:Hs.
+    + destruct (get_sess h sid) as [s|] eqn:Hg.
+      * rewrite (drop_state h c cn sid s Hc Hs Hg). apply loc_noconn; cbn [fst snd]; [|apply noconn_cons; [intros; discriminate|apply noconn_nil]].
+        assert (Hb : s_backend s = b) by (apply (Hon cn sid s); auto).
+        match goal with |- Fr _ _ _ (set_expired (set_clients ?h2 _) _) => apply (fr_then_eq b (Some c) h h2); try reflexivity end.
+        eapply fr_trans; [apply (fr_eq b (Some c) h (set_conns h (adel (h_conns h) c))); reflexivity|]. apply fr_put with s; auto.
+      * cbn [step]. rewrite Hc, Hs. change (get_sess (set_conns h (adel (h_conns h) c)) sid) with (get_sess h sid). rewrite Hg.
+        apply loc_noconn; cbn [fst snd]; [apply fr_eq; reflexivity|apply noconn_cons; [intros; discriminate|apply noconn_nil]].
+    + cbn [step]. rewrite Hc, Hs. apply loc_noconn; cbn [fst snd]; [apply fr_eq; reflexivity|apply noconn_cons; [intros; discriminate|apply noconn_nil]].
+  - (* room API *)
+    subst b'. cbn [step]. destruct (negb (N.eqb b signas) || (h_nb h <=? b)); [apply loc_ret|]. apply loc_do_api; [exact TIh|exact Hl].
+  - cbn [step]. apply (with_session_spec (Loc b (Some c) h)); [apply loc_ret|apply loc_own|].
+    intros cn sid s Hc Hs Hg. destruct (is_internal (s_kind s)); [|apply loc_ret].
+    apply (do_internal_spec b h c sid s q W TIh Hg). apply (Hon cn sid s); auto.
+  - cbn [step]. apply (with_session_spec (Loc b (Some c) h)); [apply loc_ret|apply loc_own|].
+    intros cn sid s Hc Hs Hg. apply loc_do_media; auto. apply (Hon cn sid s); auto.
+  - rewrite step_transient. apply (with_session_spec (Loc b (Some c) h)); [apply loc_ret|apply loc_own|].
+    intros cn sid s Hc Hs Hg. assert (Hb : s_backend s = b) by (apply (Hon cn sid s); auto).
+    destruct (s_room s) as [k|] eqn:Hr; [|apply loc_own].
+    destruct (negb (allowed_transient s)); [apply loc_own|]. destruct (room_of h k) as [r|] eqn:Hroom; [|apply loc_ret].
+    apply (transient_body_spec b (Some c) h k r kindn key val TIh Hroom). rewrite <- Hb. apply (t_room h (proj1 TIh) sid s k Hg Hr).
+  - (* aborted hello *)
+    cbn [step]. destruct (aget (h_conns h) c) as [cn|] eqn:Hc; [|apply loc_ret]. destruct (c_sess cn) eqn:Hs; [apply loc_ret|].
+    destruct hl as [b' u rej|b' u t|b' t f d|i]; try apply loc_ret.
+    + destruct rej; [apply loc_ret|]. destruct (h_nb h <=? b'); [apply loc_ret|].
+      match goal with |- context [close_conn ?hh c] => rewrite (close_unattached hh c cn) end;
+        [|destruct late; exact Hc|exact Hs].
+      apply loc_noconn; cbn [fst snd]; [destruct late; apply fr_eq; reflexivity|].
+      apply noconn_cons; [intros; discriminate|]. apply noconn_cons; [intros; discriminate|apply noconn_nil].
+    + rewrite (close_unattached h c cn Hc Hs). apply loc_noconn; cbn [fst snd]; [apply fr_eq; reflexivity|].
+      apply noconn_cons; [intros; discriminate|apply noconn_nil].
+Qed.
+
+(* deliveries: a publication of backend b reaches sessions of b only *)
+Theorem deliver_local b oc h pos : WF h -> TI h ->
+  (forall p rest, take_nth (N.to_nat pos) (h_bus h) = Some (p, rest) -> pub_ok b h p) ->
+  Loc b oc h (step h (ODeliver pos)).
+Proof. intros W TIh Hp. cbn [step]. now apply loc_deliver_at. Qed.
+
+(* completions at the media server: only the session the object is created for is told and changed *)
+Theorem mcudone_local b oc h tok ok : TI h ->
+  (forall p, aget (h_mcupending h) tok = Some p -> bsid b h (mp_owner p) /\ bsid b h (mp_errto p)) ->
+  Loc b oc h (step h (OMcuDone tok ok)).
+Proof. intros TIh Hp. cbn [step]. now apply loc_do_mcudone. Qed.
+
+Lemma drain_local b oc fuel : forall h, WF h -> TI h -> bus_all b h ->
+  Loc b oc h (drain fuel h) /\ bus_all b (fst (drain fuel h)).
+Proof.
+  induction fuel as [|f IH]; intros h W TIh Ha; cbn [drain]; [split; [apply loc_ret|exact Ha]|].
+  destruct (h_bus h) as [|p0 rest0] eqn:Hbus; [split; [apply loc_ret|exact Ha]|].
+  assert (L1 : Loc b oc h (deliver_at h 0)).
+  { apply loc_deliver_at; auto. intros p rest E. destruct (take_nth_incl _ _ _ _ E) as [Hin _]. now apply Ha. }
+  pose proof (wf_deliver_at h 0 W) as W1. pose proof (ti_deliver_at h 0 TIh) as TI1.
+  destruct (deliver_at h 0) as [h1 o1]. cbn [fst] in *.
+  assert (Ha1 : bus_all b h1) by (apply (bus_all_fr b oc h); [apply L1|exact Ha]).
+  destruct (IH h1 W1 TI1 Ha1) as [L2 Ha2]. destruct (drain f h1) as [h2 o2]. cbn [fst] in *.
+  split; [|exact Ha2]. apply (loc_bind b oc h (h1, o1) (h2, o2)); assumption.
+Qed.
+
+Theorem qstep_local b h o : WF h -> TI h -> rs_local h o = true -> op_on b h o -> bus_all b h ->
+  Loc b (op_conn o) h (qstep h o) /\ bus_all b (fst (qstep h o)).
+Proof.
+  intros W TIh Hl Hon Ha. unfold qstep.
+  pose proof (step_local b h o W TIh Hl Hon) as L1.
+  pose proof (wf_step h o W) as W1. pose proof (ti_step h o W TIh) as TI1.
+  destruct (step h o) as [h1 o1]. cbn [fst] in *.
+  assert (Ha1 : bus_all b h1) by (apply (bus_all_fr b (op_conn o) h); [apply L1|exact Ha]).
+  destruct (drain_local b (op_conn o) 500 h1 W1 TI1 Ha1) as [L2 Ha2]. destruct (drain 500 h1) as [h2 o2]. cbn [fst] in *.
+  split; [|exact Ha2]. apply (loc_bind b (op_conn o) h (h1, o1) (h2, o2)); assumption.
+Qed.
